@@ -8,7 +8,7 @@ use skv::*;
 use std::collections::BTreeSet;
 use std::process::Command;
 
-const VCHARS: [&str; 30] = ["a", "b", "c", "1", ",", ",", " ", "'", "\"", "$", "`", "\\", ";", "|", "&", "\n", "\0", "*", "?", "[", "]", "~", "#", "(", ")", "<", ">", "中", "é", "\t"];
+const VCHARS: [&str; 38] = ["{}", "{1}", "{+}", "{q}", "{n}", "{", "}", "\\{}", "a", "b", "c", "1", ",", ",", " ", "'", "\"", "$", "`", "\\", ";", "|", "&", "\n", "\0", "*", "?", "[", "]", "~", "#", "(", ")", "<", ">", "中", "é", "\t"];
 const LITS: [&str; 16] = ["echo ", "cat ", " | wc -l", "; ", "\"$HOME\" ", "'lit' ", "{", "}", "\\", "$(true) ", "-x ", "{x} ", "{ ", "\\\\", "{1,2} ", "a{b"];
 
 #[derive(Clone, Debug)]
